@@ -15,6 +15,14 @@
 //	     sensitivity (a non-automorphic tie); one-edge-flipped non-isomorphic variants differ; the output parses
 //	     back to an isomorphic dataset; lines sorted and unique; issued map and original indices describe the
 //	     renaming applied.
+//
+// Generator families aimed at step 5 of the canonicalization algorithm (tie groups processed in hash order):
+// `components` (chains, stars, cycles, separate edges over ONE predicate of predPool) and `tiedUnion` (rings,
+// prisms, bidirectional cliques with a leaf on every node + separate edges/chains, predicates per component)
+// build datasets WITHOUT uniquely hashed nodes in which a tie group contains nodes already labelled through an
+// earlier group's hash paths next to unlabelled ones; each of them is also run 6 times unchanged (only Go's
+// map order differs) and as a deterministic corpus over all 20 pool predicates (the group order is a function
+// of the IRIs). Failures carry the generator shape in their detail and in the histogram (`violation-shape:`).
 package canonlib
 
 import (
@@ -580,7 +588,8 @@ func (h *harness) checkDataset(kind, hashName string, d dataset, variants int) {
 
 	if *nomodel {
 		// oracle only: without the spec's tie report, variants are required to agree for the full-width hashes only
-		if len(varOuts) > 0 && (hashName == "sha256" || hashName == "sha384") {
+		// (and not on the corpus dataset on which RDFC-1.0 itself is order-dependent)
+		if len(varOuts) > 0 && (hashName == "sha256" || hashName == "sha384") && kind != "corpus:rdfc10-non-automorphic-tie" {
 			for _, vo := range varOuts {
 				if vo != vh.X(g.bytes)+"#ok" {
 					h.violation("canon.runs "+hashName+" 1 "+wire, "C03: a relabelled/permuted variant canonicalizes differently (oracle-only mode, no tie report)")
@@ -619,11 +628,15 @@ func (h *harness) checkDataset(kind, hashName string, d dataset, variants int) {
 					return
 				}
 			}
-			if len(outs) > 1 && n < moreSeeds {
+			// Escalate before reporting, also when the first samples all agree: the sampled orders are a fixed set
+			// per key-list length, and on a dataset made of isomorphic copies all 8 of them can happen to visit the
+			// same copy first although the labelling does depend on the order.
+			if n < moreSeeds {
 				h.ask(runLine(moreSeeds), t3(moreSeeds))
 				return
 			}
-			h.disagreement(runLine(n), g.line, strings.Join(outs, " | "), "T3: rdfcanon.Canonicalize differs from Model.Rdfcanon.canon under every sampled order")
+			h.rep.Count("disagreement-shape:" + kind)
+			h.disagreement(runLine(n), g.line, strings.Join(outs, " | "), "T3: rdfcanon.Canonicalize differs from Model.Rdfcanon.canon under every sampled order [generator shape: "+kind+"]")
 		}
 	}
 	h.ask(runLine(baseSeeds), t3(baseSeeds))
@@ -685,7 +698,8 @@ func (h *harness) checkDataset(kind, hashName string, d dataset, variants int) {
 				h.ask(specLine("1", moreSeeds), spec(moreSeeds, bs))
 				return
 			}
-			h.violation(runLine(1), bad+" — go="+clip(goB)+" spec="+clip(strings.Join(bs, " | ")))
+			h.rep.Count("violation-shape:" + kind)
+			h.violation(runLine(1), bad+" [generator shape: "+kind+"] — go="+clip(goB)+" spec="+clip(strings.Join(bs, " | ")))
 		}
 	}
 	if self {
@@ -977,6 +991,155 @@ func (h *harness) components(maxNodes int) shape {
 	return s
 }
 
+// prism: two directed k-rings joined by k rungs (vertex-transitive: every node has the same first-degree hash).
+func prism(k int, p string) shape {
+	s := shape{name: "prism", n: 2 * k}
+	for i := 0; i < k; i++ {
+		s.qs = append(s.qs, edge(i, (i+1)%k, p), edge(k+i, k+(i+1)%k, p), edge(i, k+i, p))
+	}
+	return s
+}
+
+// fringe: the shape plus one leaf hanging off EVERY node (all outward or all inward). A vertex-transitive body
+// (ring, prism, bidirectional clique) stays vertex-transitive: no node gets a unique first-degree hash, the body
+// nodes form one tie group and the leaves another, and the leaves tie with the end nodes of separate edges and
+// chains in other components.
+func fringe(s shape, p string, out bool) shape {
+	r := shape{name: s.name, n: 2 * s.n, qs: append([]vh.GQuad{}, s.qs...)}
+	for i := 0; i < s.n; i++ {
+		if out {
+			r.qs = append(r.qs, edge(i, s.n+i, p))
+		} else {
+			r.qs = append(r.qs, edge(s.n+i, i, p))
+		}
+	}
+	return r
+}
+
+func union(name string, parts ...shape) shape {
+	c := shape{name: name}
+	for _, x := range parts {
+		c.qs = append(c.qs, x.shift(c.n).qs...)
+		c.n += x.n
+	}
+	return c
+}
+
+// tiedUnion: a disjoint union of one or two fringed symmetric bodies (rings, prisms, bidirectional cliques with a
+// leaf on every node) and 2..3 separate edges or short chains, each component over its own predicate drawn from
+// a pair of the pool (mostly the first, so that components share one). No node has a unique first-degree hash;
+// nodes of different, non-isomorphic components share first-degree hashes (leaves and chain ends); when step 5
+// reaches the leaves' tie group, the leaves of a body whose group came earlier are already labelled through
+// that group's hash paths while the chain ends are not; and the order of the groups (a function of the
+// predicate IRIs) varies between datasets.
+func (h *harness) tiedUnion(maxNodes int) shape {
+	r := h.r
+	p1, p2 := vh.Pick(r, predPool), vh.Pick(r, predPool)
+	pick := func() string {
+		if r.Chance(20) {
+			return p2
+		}
+		return p1
+	}
+	body := func() shape {
+		p := pick()
+		var c shape
+		switch r.Intn(4) {
+		case 0, 1:
+			c = cycle(2+r.Intn(3), p)
+		case 2:
+			c = prism(2, p)
+		default:
+			c = clique(3, p, true)
+		}
+		return fringe(c, p, r.Bool())
+	}
+	parts := []shape{body()}
+	if r.Chance(30) {
+		parts = append(parts, body())
+	}
+	small := 2 + r.Intn(2)
+	ln := 2 + r.Intn(2)
+	for i := 0; i < small; i++ {
+		parts = append(parts, pathShape(ln, pick()))
+	}
+	s := shape{name: "components:union"}
+	for i, c := range parts {
+		if s.n+c.n > maxNodes && i > 0 {
+			continue
+		}
+		s.qs = append(s.qs, c.shift(s.n).qs...)
+		s.n += c.n
+	}
+	return s
+}
+
+const exG1, exG2 = "http://example.org/g1", "http://example.org/g2"
+
+// inGraphs: the edge asserted in every graph of the set (bit 0: default graph, bit 1: <g1>, bit 2: <g2>).
+func inGraphs(a, b int, p string, set int) []vh.GQuad {
+	var qs []vh.GQuad
+	if set&1 != 0 {
+		qs = append(qs, edge(a, b, p))
+	}
+	for i, g := range []string{exG1, exG2} {
+		if set&(2<<i) != 0 {
+			q := edge(a, b, p)
+			t := iri(g)
+			q.G = &t
+			qs = append(qs, q)
+		}
+	}
+	return qs
+}
+
+// multigraph: a small tree or sparse digraph whose edges are each asserted in a random non-empty set of graphs
+// (default, <g1>, <g2>): a node then reaches the same neighbour through several quads with one related hash
+// (same predicate and position, the graph name is not part of it), so that blank node lists of Hash N-Degree
+// Quads contain a node more than once, among nodes that tie at first degree without being automorphic.
+func (h *harness) multigraph(maxNodes int) shape {
+	r := h.r
+	n := 3 + r.Intn(min(maxNodes, 6)-2)
+	p := vh.Pick(r, []string{exP, exP, exQ, "urn:p"})
+	s := shape{name: "multigraph", n: n}
+	for i := 1; i < n; i++ { // random tree, random edge direction
+		a, b := r.Intn(i), i
+		if r.Chance(30) {
+			a, b = b, a
+		}
+		s.qs = append(s.qs, inGraphs(a, b, p, 1+r.Intn(7))...)
+	}
+	for i, m := 0, r.Intn(2); i < m; i++ { // sometimes an extra edge
+		s.qs = append(s.qs, inGraphs(r.Intn(n), r.Intn(n), p, 1+r.Intn(7))...)
+	}
+	return s
+}
+
+// multigraphTrees: every assignment of a non-empty subset of {<g1>, <g2>} to the three edges of four 4-node
+// trees (chain, vee, out-star, fork).
+func multigraphTrees(f func(qs []vh.GQuad)) int {
+	trees := [][][2]int{
+		{{0, 1}, {1, 2}, {2, 3}},
+		{{2, 3}, {2, 1}, {1, 0}},
+		{{0, 1}, {0, 2}, {0, 3}},
+		{{0, 1}, {1, 2}, {1, 3}},
+	}
+	cnt := 0
+	for _, t := range trees {
+		for code := 0; code < 27; code++ {
+			var qs []vh.GQuad
+			c := code
+			for _, e := range t {
+				qs = append(qs, inGraphs(e[0], e[1], "urn:p", 2*(1+c%3))...)
+				c /= 3
+			}
+			cnt++
+			f(qs)
+		}
+	}
+	return cnt
+}
+
 func (h *harness) randomShape(maxNodes int) shape {
 	r := h.r
 	p := vh.Pick(r, []string{exP, exP, "http://example.org/q"})
@@ -987,7 +1150,11 @@ func (h *harness) randomShape(maxNodes int) shape {
 		if mn < 12 {
 			mn = 12
 		}
-		s = h.components(mn)
+		if r.Chance(35) {
+			s = h.tiedUnion(mn)
+		} else {
+			s = h.components(mn)
+		}
 		if r.Chance(70) {
 			return s // mostly undecorated: decorations break the ties across components
 		}
@@ -1014,6 +1181,28 @@ func (h *harness) randomShape(maxNodes int) shape {
 	case 4: // disjoint copies of a small shape
 		base := []shape{cycle(3, p), cycle(4, p), pathShape(2, p), pathShape(3, p), star(3, p, true), clique(3, p, false)}[r.Intn(6)]
 		k := 2 + r.Intn(2)
+		if r.Chance(40) {
+			// two copies of a random tree of depth up to 5 with branching: no node has a unique first-degree hash,
+			// and Hash N-Degree Quads recurses several levels deep with more than one permutation at the deeper
+			// levels (issuer copies of copies)
+			n := 4 + r.Intn(3)
+			base = shape{name: "tree", n: n}
+			for i := 1; i < n; i++ {
+				a := r.Intn(i)
+				if r.Chance(50) {
+					a = i - 1 // favour depth
+				}
+				if r.Chance(20) {
+					base.qs = append(base.qs, edge(i, a, p))
+				} else {
+					base.qs = append(base.qs, edge(a, i, p))
+				}
+			}
+			k = 2
+			if maxNodes < 2*n {
+				maxNodes = 2 * n
+			}
+		}
 		for k*base.n > maxNodes && k > 1 {
 			k--
 		}
@@ -1023,7 +1212,14 @@ func (h *harness) randomShape(maxNodes int) shape {
 			s.qs = append(s.qs, c.qs...)
 		}
 		s.n = k * base.n
-	case 5: // random sparse digraph
+	case 5: // random sparse digraph, or a tree with edges asserted in several graphs
+		if r.Chance(50) {
+			s = h.multigraph(maxNodes)
+			if r.Chance(60) {
+				return s
+			}
+			break
+		}
 		n := 2 + r.Intn(min(maxNodes, 8)-1)
 		s = shape{name: "random", n: n}
 		for i, m := 0, n+r.Intn(n+1); i < m; i++ {
@@ -1547,7 +1743,7 @@ func Main(prop string) {
 		*out = "/verif/evidence/." + prop + ".report.json"
 	}
 	seed := vh.SeedFromEnv()
-	rule := "structured blank-node graphs (cycles, cliques, stars, paths, disjoint copies, random sparse digraphs, joined shapes; decorated with self loops, blank/IRI graph names, literal/IRI tails, exotic ground quads; <= 12 blank nodes) x hash (sha256, sha384, 32-bit and 8-bit truncations to provoke collisions) x 8..72 iteration orders; W3C vectors; non-trivial = at least two blank nodes (datasets), every vector"
+	rule := "structured blank-node graphs (cycles, cliques, stars, paths, disjoint copies, random sparse digraphs, joined shapes, multi-predicate rings, trees with edges asserted in several graphs, disconnected unions of chains/stars/cycles over one pool predicate, unions of fringed rings/prisms/cliques with separate edges/chains whose nodes tie on first-degree hashes across non-isomorphic components; decorated with self loops, blank/IRI graph names, literal/IRI tails, exotic ground quads; <= 12 blank nodes) x hash (sha256, sha384, 32-bit and 8-bit truncations to provoke collisions) x 8..72 iteration orders; W3C vectors; non-trivial = at least two blank nodes (datasets), every vector"
 	rep := vh.NewReport(prop, *tier, seed, rule)
 	rep.Cases = []vh.Case{} // never null in the JSON report
 	h := &harness{prop: prop, r: vh.NewRng(seed), rep: rep, drv: vh.Driver{Path: *driver}}
@@ -1670,6 +1866,20 @@ func Main(prop string) {
 			}
 			h.checkDataset(c.name, "sha256", fromG(c.qs, func(i int) string { return fmt.Sprintf("e%d", i) }), 16)
 		}
+		// unions of a fringed symmetric body (ring / prism / clique with a leaf on every node) and separate edges or
+		// chains whose ends tie with the leaves, per predicate of the pool (group order varies with the IRI)
+		for i, p := range predPool {
+			var c shape
+			switch (i + 2) % 3 {
+			case 0:
+				c = union("corpus:components:union", fringe(cycle(3, p), p, true), pathShape(2, p), pathShape(2, p))
+			case 1:
+				c = union("corpus:components:union", fringe(prism(2, p), p, false), pathShape(2, p), pathShape(2, p))
+			default:
+				c = union("corpus:components:union", fringe(cycle(2, p), p, false), fringe(clique(3, p, true), p, true), pathShape(3, p))
+			}
+			h.checkDataset(c.name, "sha256", fromG(c.qs, func(i int) string { return fmt.Sprintf("e%d", i) }), 16)
+		}
 		for _, s := range []shape{tie, twoStars(9), twoStars(8), twoStars(7), cycle(520, exP), cycle(505, exP), clique(7, exP, false)} {
 			if strings.HasPrefix(s.name, "corpus") == false {
 				s.name = "corpus:" + s.name
@@ -1698,6 +1908,13 @@ func Main(prop string) {
 				os.Exit(2)
 			}
 		}
+	}
+	{
+		cnt := multigraphTrees(func(qs []vh.GQuad) {
+			d := fromG(qs, func(i int) string { return fmt.Sprintf("e%d", i) })
+			h.checkDataset("exhaustive-multigraph-trees", "sha256", d, 4)
+		})
+		rep.Exhaustive = append(rep.Exhaustive, fmt.Sprintf("all %d assignments of a non-empty subset of two named graphs to each edge of four 4-node trees (chain, vee, out-star, fork) over one predicate, sha256, 4 variants each", cnt))
 	}
 	if *tier == "thorough" {
 		cnt := exhaustiveSmall(5, func(qs []vh.GQuad) {
